@@ -490,6 +490,11 @@ class Run(object):
       yv = self.locks[l].acquire(bool(op.get("blocking", True)))
     elif k == "release":
       l = op.get("lock", 0) % len(self.locks)
+      if self.holder.get(l) != tid:
+        # release whichever lock this generator holds (locks are only released by their holder)
+        mine = [x for x in sorted(self.holder) if self.holder[x] == tid]
+        if mine:
+          l = mine[0]
       if self.holder.get(l) == tid:
         eff["lock"] = l
         self.holder[l] = None
